@@ -293,6 +293,7 @@ class FaultTap:
 
     def _fire(self, where: str):
         self.fired_at = where
+        self.n_fired = self.n
         raise OperationalError("injected transient failure", None, Exception("injected"))
 
     def _cursor(self, conn, cursor, statement, parameters, context, executemany):
@@ -423,7 +424,7 @@ class OpTap:
                     if ft is not None and ft.fired_at is not None and not getattr(ft, "accounted", False):
                         ft.accounted = True
                         # writing commits this operation completed before the failing one
-                        ev["fault_j"] = (ft.n - 1) - c0
+                        ev["fault_j"] = (ft.n_fired - 1) - c0
                 except Exception as e:  # noqa: BLE001
                     self.events.append(dict(req=None, kind="harness-error", expect=repr(e), name=name))
             if err is not None:
